@@ -1,1 +1,8 @@
+Check (C14_iterator_is_declarative_split : forall d : bytes, nal_iter d = spec_units d).
+Check (C14_annexb_to_avcc_exact : forall d : bytes, (len d < 4294967296)%N -> check_reframe d (annexb_to_avcc d) = true).
+Check (C14_hevc_annexb_to_hvcc_exact : forall d : bytes, (len d < 4294967296)%N -> check_reframe d (hevc_annexb_to_hvcc d) = true).
 Check (C14_length_prefixed_units_parse_back : forall nals, Forall (fun n => (len n < 4294967296)%N) nals -> parse_len4 (len_prefixed nals) = Some nals).
+Check (C14_adts_decision_and_payload : forall f : bytes, bytes_ok f = true -> match adts_to_raw f with AdtsOk raw => spec_adts_payload f = Some raw | AdtsErr _ => spec_adts_payload f = None end).
+Check (C14_adts_payload_is_the_declared_slice : forall f raw, bytes_ok f = true -> adts_to_raw f = AdtsOk raw -> exists hdr fl, adts_valid_header f = Some (hdr, fl) /\ (hdr = 7 \/ hdr = 9)%N /\ (hdr < fl)%N /\ (fl <= len f)%N /\ raw = take (fl - hdr) (drop hdr f) /\ len raw = (fl - hdr)%N).
+Check (C14_nonvacuous).
+Check (C14_adts_nonvacuous).
